@@ -9,6 +9,7 @@
 """
 import glob
 import os
+import re
 
 from vlib.facts import kids, strip, walk, is_call, call_args, call_object, callee, render, literal, noid
 from vlib.cfg import write_target
@@ -54,6 +55,7 @@ def run(ctx):
     R.rule("C15-R2b", "(shared with C12) delimiter agreement", floor=6)
     R.rule("C15-R3", "every expression node prints all stored children", floor=15)
     R.rule("C15-R5", "a printer emits what the node stores: no print() edits a copy of one of the node's fields before streaming it", floor=25)
+    R.rule("C15-R6", "list printers put a separator between every two consecutive elements (guard on the loop index is `i > 0` before, or `i < last` after, the element)", floor=2)
     R.rule("C15-R4", "parenthesesNode prints ( child ); no printer adds a second pair around it", floor=2)
 
     tab = operator_table(prog)
@@ -183,6 +185,52 @@ def run(ctx):
              "every stored child is streamed" if not missing else "child node(s) %s are part of the tree but never printed: the printed source loses a sub-expression" % missing)
     if n_cls < 12:
         raise AnalysisBroken("only %d expression node classes with children found" % n_cls)
+    # ---- R6: comma-separated lists ---------------------------------------------------------------------------------------------------------
+    n6 = 0
+    for f in sorted(prog.funcs.values(), key=lambda f: f.q):
+        if not f.q.endswith("Node::print") or not f.q.startswith(L) or f.d.get("tmpl") == "inst":
+            continue
+        defs = f.local_defs()
+        for lp in [n for n in f.walk() if n["k"] == "ForStmt" and not n.get("mac")]:
+            iv = [v for v in walk(kids(lp)[0]) if v["k"] == "VarDecl"] if kids(lp)[0] is not None else []
+            if len(iv) != 1:
+                continue
+            ivd = iv[0]["d"]
+            conds = [k_ for k_ in kids(lp)[1:] if k_ is not None and strip(k_)["k"] == "BinaryOperator" and strip(k_).get("op") == "<"]
+            bound = noid(render(conds[0], False)).replace(" ", "") if conds else ""
+            m = re.match(r"\((\w+)<([\w>\-\.\(\)]+)\)$", bound)
+            if not m:
+                continue
+            count = m.group(2)
+            seps = [x for x in walk(lp) if (x["k"] == "CharacterLiteral" and literal(x) in (",", 44)) or (x["k"] == "StringLiteral" and str(literal(x)).strip() == ",")]
+            for sp in seps:
+                guard = None
+                for a_ in f.ancestors(sp):
+                    if a_["i"] == lp["i"]:
+                        break
+                    if a_["k"] == "IfStmt" and any(y["k"] == "DeclRefExpr" and y.get("d") == ivd for y in walk(kids(a_)[0])):
+                        guard = a_
+                        break
+                if guard is None:
+                    continue
+                g = noid(render(kids(guard)[0], False)).replace(" ", "")
+                # substitute single-definition integer locals (lastArg = argCount - 1)
+                for y in walk(kids(guard)[0]):
+                    if y["k"] == "DeclRefExpr" and y.get("loc") and y.get("d") != ivd:
+                        ds = [d_ for d_ in defs.get(y["d"], []) if d_["k"] == "VarDecl" and kids(d_)]
+                        if len(ds) == 1:
+                            g = g.replace(y.get("n", "\0"), noid(render(kids(ds[0])[0], False)).replace(" ", ""))
+                i_ = iv[0]["n"]
+                before = {"%s" % i_, "(%s)" % i_, "(%s>0)" % i_, "(%s!=0)" % i_, "(0<%s)" % i_, "(%s>=1)" % i_}
+                after = {"(%s<(%s-1))" % (i_, count), "((%s+1)<%s)" % (i_, count), "(%s!=(%s-1))" % (i_, count), "((%s+1)!=%s)" % (i_, count), "(%s<%s-1)" % (i_, count)}
+                ok = g in before or g in after
+                n6 += 1
+                R.ob("C15-R6", ok, f.q, "separator under `%s`" % g[:50], f.site(sp),
+                     "between every two elements" if ok else
+                     "the separator is printed under `%s` (loop over %s elements): some pair of neighbouring elements is printed without a `,` between them - the text is another token stream and does not parse back" % (g, count))
+    if n6 < 2:
+        raise AnalysisBroken("list printers: only %d guarded separators found" % n6)
+
     # ---- R5: printing is read-only on the node AND on what is printed ----------------------------------------------------------------------
     for f in sorted(prog.funcs.values(), key=lambda f: f.q):
         if not f.q.endswith("Node::print") or not f.q.startswith(L) or f.d.get("tmpl") == "inst":
